@@ -33,13 +33,13 @@ type CallEnv struct {
 	FaultErr       error // the error injected by Fault == "err"
 	StatesMade     int   // number of state objects generated during this call
 	Mon            *StateMonitor
-	Call           int               // index of the current call of a history (set by the driver)
-	Events         []Event           // start / end of bodies, in real order
+	Call           int                // index of the current call of a history (set by the driver)
+	Events         []Event            // start / end of bodies, in real order
 	SeenStates     map[string]*GState // graph path -> state object last seen by a callback of that graph
 	SeenSeq        map[string]int     // graph path -> logical time of that observation
 	seenSeq        int
 	Hook           func(ctx context.Context, n *NodeSpec, tag string, in string) // optional extra instrumentation
-	Cancel         context.CancelFunc // called by a body with Fault == cancel
+	Cancel         context.CancelFunc                                            // called by a body with Fault == cancel
 }
 
 // Event is the start or the end of one body execution.
@@ -425,10 +425,10 @@ func lambdaFor(n *NodeSpec, tag string) *compose.Lambda {
 type BuildOpts struct {
 	Store      compose.CheckPointStore
 	NodeOpts   func(sp *Spec, n *NodeSpec, path string) []compose.GraphAddNodeOpt // extra node options (state handlers)
-	NewOpts    func(sp *Spec, path string) []compose.NewGraphOption             // e.g. WithGenLocalState
-	AddOrder   []int                                                             // permutation hint for the order of Add* calls (nil = canonical)
-	ExtraComp  []compose.GraphCompileOption                                      // top level only
-	BranchHook func(sp *Spec, b *Branch, path string, canon string)              // observes branch evaluations
+	NewOpts    func(sp *Spec, path string) []compose.NewGraphOption               // e.g. WithGenLocalState
+	AddOrder   []int                                                              // permutation hint for the order of Add* calls (nil = canonical)
+	ExtraComp  []compose.GraphCompileOption                                       // top level only
+	BranchHook func(sp *Spec, b *Branch, path string, canon string)               // observes branch evaluations
 }
 
 func nodeOpts(sp *Spec, n *NodeSpec, path string, bo *BuildOpts, skipOutputKey ...bool) []compose.GraphAddNodeOpt {
